@@ -48,7 +48,7 @@ func paramsToGo(ps map[string]STerm) parser.ParametersMap {
 }
 func paramsCoq(ps map[string]STerm) string {
 	var items []string
-	for _, k := range []string{"p1", "p2", "who"} {
+	for _, k := range []string{"p1", "p2", "who", "pv"} {
 		if v, ok := ps[k]; ok {
 			items = append(items, fmt.Sprintf("(%s, %s)", coqStr(k), v.coq()))
 		}
@@ -325,6 +325,75 @@ func runC14(res *Result, rng *RNG, tier string, outDir string) {
 			continue
 		}
 		addCase(b.kind, b.text, nil, "PXErr")
+	}
+	// (2b) the same error classes reached through parameter substitution, and the legal uses of a
+	// variable-valued parameter
+	{
+		pv := map[string]STerm{"pv": aVar("r"), "p2": aStr("file2")}
+		for _, b := range []struct {
+			kind, text, class string
+			wantErr           bool
+		}{
+			{"PCheck", `check if resource($r), [{pv}, "file2"].contains($r)`, "variable-in-set-through-parameter", true},
+			{"PCheck", `check if resource($r), ["file1", {p2}, {pv}].contains($r)`, "variable-in-set-through-parameter", true},
+			{"PFact", `resources(["file1", {pv}])`, "variable-in-set-through-parameter", true},
+			{"PRule", `ok($r) <- resource($r, [{pv}, "file2"])`, "variable-in-set-through-parameter", true},
+			{"PFact", `right({pv})`, "variable-in-fact-through-parameter", true},
+			{"PCheck", `check if resource({pv})`, "variable-parameter-in-body", false},
+			{"PCheck", `check if resource($r), {pv} == {p2}`, "variable-parameter-in-expression", false},
+			{"PRule", `ok({pv}) <- resource({pv}, {p2})`, "variable-parameter-in-rule", false},
+			{"PFact", `resources([{p2}, "file1"])`, "ground-parameter-in-set", false},
+		} {
+			var err error
+			var obs string
+			pan := usable(func() {
+				switch b.kind {
+				case "PFact":
+					var f biscuit.Fact
+					f, err = parser.FromStringFactWithParams(b.text, paramsToGo(pv))
+					if err == nil {
+						obs = "PXFact (" + predFromBiscuit(f.Predicate).coq() + ")"
+					}
+				case "PRule":
+					var ru biscuit.Rule
+					ru, err = parser.FromStringRuleWithParams(b.text, paramsToGo(pv))
+					if err == nil {
+						gr, _ := ruleFromBiscuit(ru)
+						obs = "PXRule (" + gr.coq() + ")"
+					}
+				case "PCheck":
+					var c biscuit.Check
+					c, err = parser.FromStringCheckWithParams(b.text, paramsToGo(pv))
+					if err == nil {
+						var gc SCheck
+						for _, q := range c.Queries {
+							gr, _ := ruleFromBiscuit(q)
+							gc = append(gc, gr)
+						}
+						obs = "PXCheck (" + gc.coq() + ")"
+					}
+				}
+			})
+			res.Count(b.text, true)
+			res.Dist("param-class:" + b.class)
+			rep := map[string]interface{}{"text": b.text, "class": b.class, "parameters": "pv = $r, p2 = \"file2\""}
+			if pan != "" {
+				res.Violate("panic:parse", "parsing panicked: "+pan, rep)
+				continue
+			}
+			if b.wantErr && err == nil {
+				res.Violate("error-not-reported:"+b.class, "a text in the documented error class '"+b.class+"' parses without error: "+obs, rep)
+				continue
+			}
+			if !b.wantErr && err != nil {
+				res.Violate("valid-text-rejected:"+b.class, "a legal use of a parameter is rejected: "+err.Error(), rep)
+				continue
+			}
+			if err != nil {
+				obs = "PXErr"
+			}
+			addCase(b.kind, b.text, pv, obs)
+		}
 	}
 	// (3) robustness: corruptions and arbitrary strings
 	p := parser.New()
